@@ -366,6 +366,27 @@ def mul(a, b):
     elif a.is_const() and a.lo > 0 and (a.lo & (a.lo - 1)) == 0 and b.sym is not None:
         n = a.lo.bit_length() - 1
         sym = ([0] * n + b.symbits())[:bits]
+    else:
+        # a constant with a few set bits times a symbolic word: the sum of shifted copies, exact wherever the ripple carry stays determinate
+        for c, v in ((a, b), (b, a)):
+            if c.is_const() and c.lo > 0 and bin(c.lo).count('1') <= 3 and v.sym is not None and c.sym is None:
+                S = v.symbits()
+                acc = None
+                for i in range(c.lo.bit_length()):
+                    if (c.lo >> i) & 1:
+                        part = ([0] * i + S)[:bits]
+                        if acc is None:
+                            acc = part
+                        else:
+                            out = []
+                            cy = 0
+                            for x, y in zip(acc, part):
+                                out.append(bit_xor(bit_xor(x, y), cy))
+                                cy = bit_or(bit_or(bit_and(x, y), bit_and(x, cy)), bit_and(y, cy))
+                            acc = out
+                if acc is not None and not any(x is None for x in acc):
+                    sym = acc
+                break
     return AInt(bits, signed, lo, hi, kz, 0, term=term, sym=sym, taint=taint2(a, b)), ov
 
 
